@@ -345,6 +345,22 @@ def readAssign (env : CableEnv) (l r : Atom) : Option (PinVec Bit × PinVec Bit)
   | some lw, some rw => some (connectAssign lw rw)
   | _, _ => none
 
+/-- the reader's treatment of one named or positional connection on a port that is still free:
+    evaluate the expression (MSB first), then run the port-map loop -/
+def readConn (env : CableEnv) (W : Nat) (e : PExpr) : Option (PinVec Bit) :=
+  match evalExpr env e with
+  | none => none
+  | some ws => connectLowAligned (List.replicate W none) ws
+
+/-- write one instance port, read it back on a fresh port of the same width -/
+def portRT (env : CableEnv) (pins : List (Option Bit)) : Option (List (Option Bit)) :=
+  match emitPortExpr env pins with
+  | none => none
+  | some e =>
+    match evalExpr env e with
+    | none => none
+    | some ws => connectLowAligned (List.replicate pins.length none) ws
+
 /-! ## Write order -/
 
 /-- `_write_from_top`: queue, written (in write order, newest last).  Returns (order, finished). -/
